@@ -5,10 +5,11 @@ CONSTANTS
   Procs = {"timer", "pubsub"}
   Listeners = {"l1", "l2"}
   InitListeners = {"l1"}
-  MaxWrites = 3
+  MaxWrites = 2
   Atomic = FALSE
   Exclusive = TRUE
   Serialized = FALSE
   Faithful = TRUE
 INVARIANTS TypeOK NotifiedOncePerChange
 PROPERTY SeqEquivalent NoDoubleApply
+VIEW StepView
